@@ -444,3 +444,45 @@ def unkgroup(ctx):
            if not bad0 else
            "the flag `%s` can be set on a path with group()=false: a group=0 category loses "
            "the prefix whose length equals the run" % name)
+
+
+def unkcover(ctx):
+    """UNKCOVER (C10, C01): every character must be able to start some candidate. A character
+    that no lexicon entry covers relies on the unk.def entries of its primary category, so the
+    builder has to reject a category that has no entry (MeCab does). The rule looks for the
+    rejecting test: in UnkHandler::from_reader (and the closures it creates) some emptiness test
+    (`is_empty()` / `len()`) on a per-category list `Vec<UnkEntry>` while the function can still
+    return Err."""
+    crate = ctx.facts("A").lib
+    E = Effects(crate)
+    p = "vibrato::dictionary::unknown::UnkHandler::from_reader"
+    f = crate.fns.get(p)
+    if f is None or not f.body:
+        raise EngineError("UNKCOVER: anchor lost: %s" % p)
+    fns = [p] + [q for q in crate.fns if q.startswith(p + "::{closure")]
+    tests = []
+    ncalls = 0
+    for q in fns:
+        fa = E.fa(q)
+        for b, t in fa.calls():
+            ncalls += 1
+            nm = {strip_generics(x).rsplit("::", 1)[-1] for x in callee_paths(t)}
+            if not (nm & {"is_empty", "len"}) or not t["args"]:
+                continue
+            pl = op_place(t["args"][0])
+            ty = fa.fn.locals[pl["l"]]["ty"] if pl else ""
+            if ty.replace(" ", "").endswith("Vec<vibrato::dictionary::unknown::UnkEntry>") and ty.startswith("&"):
+                # the receiver must be an element (per-category list), not the flat entries table
+                ap = E.ap_operand(fa, t["args"][0])
+                per_cat = ap is not None and ("[]" in ap.proj or (q != p and ap.root[0] == "arg"))
+                if per_cat:
+                    tests.append(fa.loc(b))
+    ctx.floor("UNKCOVER", "calls inspected in UnkHandler::from_reader", ncalls, 10)
+    ok = bool(tests)
+    ctx.ob("UNKCOVER", "%s|category-without-entries-rejected" % p, ok, "%s:%s" % (f.file, f.line),
+           "UnkHandler::from_reader tests the per-category entry lists for emptiness (%s)" % tests
+           if ok else
+           "UnkHandler::from_reader never tests whether a category has unk.def entries: a "
+           "category defined in char.def without entries is accepted, and a character of that "
+           "category which no lexicon entry covers cannot start any candidate (tokenization "
+           "panics in Lattice::append_top_nodes)")
